@@ -21,7 +21,20 @@ type Point struct {
 	Usage  float64           `json:"usage"`
 	Cnt    int64             `json:"cnt"`
 	Status string            `json:"status"`
-	T      int64             `json:"t"`
+	T      I64               `json:"t"`
+}
+
+// I64 is an int64 that travels through JSON as a string (nanosecond timestamps exceed
+// 2^53 and witnesses pass through map[string]any in the worker protocol).
+type I64 int64
+
+func (v I64) MarshalJSON() ([]byte, error) {
+	return []byte(`"` + strconv.FormatInt(int64(v), 10) + `"`), nil
+}
+func (v *I64) UnmarshalJSON(b []byte) error {
+	n, err := strconv.ParseInt(strings.Trim(string(b), `"`), 10, 64)
+	*v = I64(n)
+	return err
 }
 
 func escTag(s string) string {
@@ -66,6 +79,20 @@ type Cond struct {
 	Val  string  `json:"val,omitempty"`
 	Op   string  `json:"op,omitempty"`
 	Num  float64 `json:"num,omitempty"`
+}
+
+// Bare renders the tree without any parentheses (black-box differential only: what the
+// text then means is decided by the server's grammar, identically on every server).
+func (c *Cond) Bare() string {
+	switch c.Kind {
+	case kAnd:
+		return c.L.Bare() + " AND " + c.R.Bare()
+	case kOr:
+		return c.L.Bare() + " OR " + c.R.Bare()
+	case kParen:
+		return c.L.Bare()
+	}
+	return c.String()
 }
 
 func (c *Cond) String() string {
@@ -265,8 +292,8 @@ func (g *condGen) leaf() *Cond {
 	}
 }
 
-// gen builds a tree with at most n leaves. Parentheses are inserted where precedence
-// requires them (OR under AND) and, sometimes, where it does not.
+// gen builds a tree with at most n leaves. Parentheses are inserted wherever AND and OR
+// are mixed and, sometimes, where they are not needed.
 func (g *condGen) gen(n int) *Cond {
 	if n <= 1 {
 		return g.leaf()
@@ -278,15 +305,11 @@ func (g *condGen) gen(n int) *Cond {
 		kind = kOr
 	}
 	wrap := func(c *Cond, right bool) *Cond {
-		need := kind == kAnd && c.Kind == kOr
-		// the parser is left-associative: a right operand of the same connective needs
-		// parentheses to keep the tree shape
-		if right && (c.Kind == kAnd || c.Kind == kOr) && c.Kind == kind {
-			need = true
-		}
-		if right && kind == kOr && c.Kind == kAnd {
-			need = false
-		}
+		// openGemini's yacc grammar gives AND and OR the same precedence (left-associative),
+		// InfluxQL gives AND the higher one. A connective child of the other kind is therefore
+		// always parenthesised, so that the text has one reading under both rules; a right
+		// child of the same kind is parenthesised to keep the tree shape (same meaning).
+		need := (c.Kind == kAnd || c.Kind == kOr) && (c.Kind != kind || right)
 		if need || (c.Kind != kParen && g.r.IntN(100) < 12) {
 			return &Cond{Kind: kParen, L: c}
 		}
